@@ -215,7 +215,22 @@ func runC19(r *simkit.Run) {
 		}
 		return q
 	}
-	pointerOf := func(nd *cNode) (val int64, age sql.NullInt64, ok bool) {
+	// every committed value of a node's pointer row, in commit order (reset per slot)
+	ptrHist := map[string][]int64{}
+	var pointerOf func(nd *cNode) (val int64, age sql.NullInt64, ok bool)
+	for _, cn := range cns {
+		nd := cn.nd
+		nd.db.OnCommit(func(_ uint64, changed []string) {
+			for _, tbl := range changed {
+				if tbl == "tx_pointer" {
+					if v, _, ok := pointerOf(nd); ok {
+						ptrHist[nd.name] = append(ptrHist[nd.name], v)
+					}
+				}
+			}
+		})
+	}
+	pointerOf = func(nd *cNode) (val int64, age sql.NullInt64, ok bool) {
 		cols, rows := nd.db.Dump("tx_pointer")
 		ci := map[string]int{}
 		for i, cn := range cols {
@@ -346,6 +361,7 @@ func runC19(r *simkit.Run) {
 			}
 			before := len(trigs)
 			lastKeys = map[string][]keysMsg{}
+			ptrHist = map[string][]int64{}
 			selfKeys = map[string]int{}
 			ptrWriteFailed = map[string]bool{}
 			type ptrRow struct {
@@ -436,6 +452,22 @@ func runC19(r *simkit.Run) {
 				}
 				if !match || !age.Valid || age.Int64 != 0 {
 					r.Fail("pointer-not-advanced", "gnosis", "node %s processed keys messages %v in slot %d but its pointer row is (value=%d, age=%v)", cn.nd.name, ks, slot, val, age)
+				}
+				// every processed keys message moves the pointer, also backwards: each p+k-1 was a
+				// committed value of the row at some moment of this slot
+				if !ptrWriteFailed[cn.nd.name] {
+					for _, k := range ks {
+						seen := false
+						for _, h := range ptrHist[cn.nd.name] {
+							if h == k.p+k.k-1 {
+								seen = true
+							}
+						}
+						if !seen {
+							r.Fail("pointer-not-advanced", "gnosis/each-message", "node %s processed the keys message (pointer %d, %d keys) in slot %d but its pointer row never held %d during that slot (committed values: %v)", cn.nd.name, k.p, k.k, slot, k.p+k.k-1, ptrHist[cn.nd.name])
+						}
+					}
+					r.Probe("pointer-history-checked")
 				}
 				r.Probe("pointer-advance-checked")
 			}
